@@ -54,7 +54,8 @@ impl LogModel {
 
     /// Like `accept`, for batches that repeat ids from before a purge: `stored` tells whether the
     /// message with that payload is in the log now. Either outcome is accepted for such a message -
-    /// the full-log check that follows still pins its offset and order - and remembered afterwards.
+    /// the full-log check that follows still pins its offset and order; a stored one is remembered afterwards,
+    /// a dropped one stays undecided.
     pub fn accept_observed(&mut self, batch: &[Sent], stored: &dyn Fn(&[u8]) -> bool) -> usize {
         let mut n = 0;
         for s in batch {
@@ -62,9 +63,13 @@ impl LogModel {
                 if self.ids.contains(&s.id) {
                     continue;
                 }
-                if self.maybe_ids.remove(&s.id) && !stored(&s.payload) {
-                    self.ids.insert(s.id);
-                    continue;
+                if self.maybe_ids.contains(&s.id) {
+                    if !stored(&s.payload) {
+                        // dropped: the id is still not in the log, so whether the server knows it later
+                        // (it forgets it at a restart, which rebuilds the ids from the log) stays open
+                        continue;
+                    }
+                    self.maybe_ids.remove(&s.id);
                 }
                 self.ids.insert(s.id);
             }
